@@ -1,7 +1,11 @@
 (* Proofs/PathIdxGen.v — structural facts about the T2t / point search that hold
-   for ANY carrier (no algebraic law is used, so they hold for binary64
-   verbatim): index range, and the repaired search (fallback = true) is total
-   and agrees with the current one wherever the latter returns. *)
+   for ANY carrier (no algebraic law is used unless stated as a hypothesis, so
+   they hold for binary64 verbatim): index range; the repaired search
+   (fb = true) never raises BugException and agrees with the unrepaired one
+   wherever that returns; the clamped quotient (cl = true) is never above 1;
+   and, under two comparison laws that IEEE arithmetic satisfies (proved for
+   PrimFloat in Proofs/PathIdxFloatLaws.v and for R here), the repaired T2t
+   is total on [0,1] with no ZeroDivisionError either. *)
 From Coq Require Import ZArith List Bool Arith Lia.
 From SVP Require Import Base.Num Model.PathIdx.
 Import ListNotations.
@@ -9,10 +13,10 @@ Import ListNotations.
 Section Gen.
   Context {K : Type} (N : Num K).
 
-  Lemma T2t_loop_range : forall fs k T0 T k' t,
-    T2t_loop N fs k T0 T = Found k' t -> (k <= k' < k + Z.of_nat (length fs))%Z.
+  Lemma T2t_loop_range : forall cl fs k T0 T k' t,
+    T2t_loop N cl fs k T0 T = Found k' t -> (k <= k' < k + Z.of_nat (length fs))%Z.
   Proof.
-    induction fs as [|[ex l] r IH]; intros k T0 T k' t E; cbn [T2t_loop] in E; [discriminate|].
+    intros cl. induction fs as [|[ex l] r IH]; intros k T0 T k' t E; cbn [T2t_loop] in E; [discriminate|].
     destruct (leb N T (add N T0 l)).
     - destruct (ex && eqb N l (zero N)); [discriminate|]. injection E as <- _.
       cbn [length]. lia.
@@ -28,19 +32,64 @@ Section Gen.
     - apply IH in E. cbn [length]. lia.
   Qed.
 
+  (* _last_nonzero_length_index: a valid index of a non-empty list, and the
+     length at that index is > 0 whenever some length is *)
+  Lemma last_pos_from_range : forall fs k best,
+    last_pos_from N fs k best = best
+    \/ (k <= last_pos_from N fs k best < k + Z.of_nat (length fs))%Z.
+  Proof.
+    induction fs as [|[ex l] r IH]; intros k best; cbn [last_pos_from]; [left; reflexivity|].
+    destruct (ltb N (zero N) l).
+    - destruct (IH (k + 1)%Z k) as [E|E]; right; cbn [length]; [rewrite E|]; lia.
+    - destruct (IH (k + 1)%Z best) as [E|E]; [left; exact E|right; cbn [length]; lia].
+  Qed.
+  Lemma fallback_idx_range fs : fs <> [] -> (0 <= fallback_idx N fs < Z.of_nat (length fs))%Z.
+  Proof.
+    intros Hne. assert (0 < length fs)%nat by (destruct fs; [congruence|simpl; lia]).
+    unfold fallback_idx. destruct (last_pos_from_range fs 0 (last_idx (length fs))) as [E|E].
+    - rewrite E. unfold last_idx. lia.
+    - lia.
+  Qed.
+  Lemma last_pos_from_spec : forall fs k best,
+    (last_pos_from N fs k best = best
+     /\ forall j x, nth_error fs j = Some x -> ltb N (zero N) (snd x) = false)
+    \/ exists j x, last_pos_from N fs k best = (k + Z.of_nat j)%Z /\ nth_error fs j = Some x
+                   /\ ltb N (zero N) (snd x) = true.
+  Proof.
+    induction fs as [|[ex l] r IH]; intros k best; cbn [last_pos_from].
+    - left. split; [reflexivity|]. intros [|j] x H; discriminate.
+    - destruct (IH (k + 1)%Z (if ltb N (zero N) l then k else best)) as [[E Hall]|[j [x [E [Hj Hx]]]]].
+      + destruct (ltb N (zero N) l) eqn:El.
+        * right. exists 0%nat, (ex, l). split; [rewrite E; lia|split; [reflexivity|exact El]].
+        * left. split; [exact E|]. intros [|j] x Hj; cbn in Hj.
+          -- injection Hj as <-. exact El.
+          -- eapply Hall; exact Hj.
+      + right. exists (S j), x. split; [rewrite E; lia|split; assumption].
+  Qed.
+  Theorem fallback_idx_positive fs :
+    (exists j x, nth_error fs j = Some x /\ ltb N (zero N) (snd x) = true) ->
+    exists j x, fallback_idx N fs = Z.of_nat j /\ nth_error fs j = Some x
+                /\ ltb N (zero N) (snd x) = true.
+  Proof.
+    intros [j0 [x0 [Hj0 Hx0]]].
+    destruct (last_pos_from_spec fs 0%Z (last_idx (length fs))) as [[_ Hall]|[j [x [E Hx]]]].
+    - rewrite (Hall j0 x0 Hj0) in Hx0. discriminate.
+    - exists j, x. split; [unfold fallback_idx; rewrite E; lia|exact Hx].
+  Qed.
+
   (* every returned index is a valid segment index of a non-empty path *)
-  Theorem T2t_fr_index fb fs T k t : fs <> [] -> T2t_fr N fb fs T = Ok (k, t) ->
+  Theorem T2t_fr_index cl fb fs T k t : fs <> [] -> T2t_fr N cl fb fs T = Ok (k, t) ->
     (0 <= k < Z.of_nat (length fs))%Z.
   Proof.
     intros Hne. assert (0 < length fs)%nat by (destruct fs; [congruence|simpl; lia]).
     unfold T2t_fr, last_idx.
     destruct (eqb N T (one N)); [intros E; injection E as <- _; lia|].
     destruct (eqb N T (zero N)); [intros E; injection E as <- _; lia|].
-    destruct (T2t_loop N fs 0 (zero N) T) as [k' t'| |] eqn:EL.
+    destruct (T2t_loop N cl fs 0 (zero N) T) as [k' t'| |] eqn:EL.
     - intros E; injection E as <- _. apply T2t_loop_range in EL. lia.
     - discriminate.
     - destruct (in01 N T); [|discriminate]. destruct fb; [|discriminate].
-      intros E; injection E as <- _; lia.
+      intros E; injection E as <- _. now apply fallback_idx_range.
   Qed.
   Theorem point_fr_index fb fs T k t : point_fr N fb fs T = Ok (k, t) ->
     (0 <= k < Z.of_nat (length fs))%Z.
@@ -52,53 +101,57 @@ Section Gen.
     destruct (point_loop N fs 0 (zero N) T) as [k' t'| |] eqn:EL.
     - intros E; injection E as <- _. apply point_loop_range in EL. lia.
     - discriminate.
-    - destruct (fb && in01 N T); [|discriminate]. intros E; injection E as <- _; lia.
+    - destruct (fb && in01 N T); [|discriminate]. intros E; injection E as <- _.
+      apply fallback_idx_range. destruct fs; [simpl in E0; congruence|discriminate].
   Qed.
 
-  (* the repaired T2t never reaches `raise BugException` ... *)
-  Theorem T2t_fixed_no_bug fs T : T2t_fixed N fs T <> Err EBug.
+  (* ---------- the fall-back repair (fb = true) ---------- *)
+  Theorem T2t_fb_no_bug cl fs T : T2t_fr N cl true fs T <> Err EBug.
   Proof.
-    unfold T2t_fixed, T2t_fr. destruct (eqb N T (one N)); [discriminate|].
+    unfold T2t_fr. destruct (eqb N T (one N)); [discriminate|].
     destruct (eqb N T (zero N)); [discriminate|].
-    destruct (T2t_loop N fs 0 (zero N) T); try discriminate.
+    destruct (T2t_loop N cl fs 0 (zero N) T); try discriminate.
     destruct (in01 N T); discriminate.
   Qed.
-  (* ... on 0 <= T <= 1 it returns a pair, unless a selected length is an exact
-     Python float 0.0 (ZeroDivisionError: cannot happen for T > 0 in IEEE
-     arithmetic since T0 + 0.0 = T0 < T; not derivable without float laws) *)
-  Theorem T2t_fixed_total fs T : in01 N T = true ->
-    (exists kt, T2t_fixed N fs T = Ok kt) \/ T2t_fixed N fs T = Err EZeroDiv.
+  (* on 0 <= T <= 1 it returns a pair, unless a selected length is an exact
+     Python float 0.0 (excluded below under two comparison laws) *)
+  Theorem T2t_fb_total cl fs T : in01 N T = true ->
+    (exists kt, T2t_fr N cl true fs T = Ok kt) \/ T2t_fr N cl true fs T = Err EZeroDiv.
   Proof.
-    intros H01. unfold T2t_fixed, T2t_fr. destruct (eqb N T (one N)); [left; eauto|].
+    intros H01. unfold T2t_fr. destruct (eqb N T (one N)); [left; eauto|].
     destruct (eqb N T (zero N)); [left; eauto|].
-    destruct (T2t_loop N fs 0 (zero N) T); [left; eauto|right; reflexivity|].
+    destruct (T2t_loop N cl fs 0 (zero N) T); [left; eauto|right; reflexivity|].
     rewrite H01. left; eauto.
   Qed.
-  (* ... and it changes nothing where the current code returns or raises something else *)
-  Theorem T2t_fixed_agrees fs T : T2t_fr N false fs T <> Err EBug ->
-    T2t_fixed N fs T = T2t_fr N false fs T.
+  (* it changes nothing where the unrepaired code returns or raises something else *)
+  Theorem T2t_fb_agrees cl fs T : T2t_fr N cl false fs T <> Err EBug ->
+    T2t_fr N cl true fs T = T2t_fr N cl false fs T.
   Proof.
-    unfold T2t_fixed, T2t_fr. destruct (eqb N T (one N)); [reflexivity|].
+    unfold T2t_fr. destruct (eqb N T (one N)); [reflexivity|].
     destruct (eqb N T (zero N)); [reflexivity|].
-    destruct (T2t_loop N fs 0 (zero N) T); try reflexivity.
+    destruct (T2t_loop N cl fs 0 (zero N) T); try reflexivity.
     destruct (in01 N T); [congruence|reflexivity].
   Qed.
-  Corollary T2t_fixed_agrees_ok fs T kt : T2t_fr N false fs T = Ok kt -> T2t_fixed N fs T = Ok kt.
-  Proof. intros E. rewrite T2t_fixed_agrees; [exact E|rewrite E; discriminate]. Qed.
   (* the only inputs on which the two differ are the fall-through ones *)
-  Theorem T2t_current_bug_iff fs T : T2t_fr N false fs T = Err EBug <->
+  Theorem T2t_current_bug_iff cl fs T : T2t_fr N cl false fs T = Err EBug <->
     (eqb N T (one N) = false /\ eqb N T (zero N) = false
-     /\ T2t_loop N fs 0 (zero N) T = Fell /\ in01 N T = true).
+     /\ T2t_loop N cl fs 0 (zero N) T = Fell /\ in01 N T = true).
   Proof.
     unfold T2t_fr. destruct (eqb N T (one N)); [split; [discriminate|intros [? _]; discriminate]|].
     destruct (eqb N T (zero N)); [split; [discriminate|intros [_ [? _]]; discriminate]|].
-    destruct (T2t_loop N fs 0 (zero N) T);
+    destruct (T2t_loop N cl fs 0 (zero N) T);
       try (split; [discriminate|intros [_ [_ [? _]]]; discriminate]).
     destruct (in01 N T); split; try discriminate; auto. intros [_ [_ [_ ?]]]; discriminate.
   Qed.
+  (* when it falls back it returns the end of the last segment of nonzero length *)
+  Theorem T2t_fb_value cl fs T : T2t_fr N cl false fs T = Err EBug ->
+    T2t_fr N cl true fs T = Ok (fallback_idx N fs, one N).
+  Proof.
+    intros H. apply T2t_current_bug_iff in H. destruct H as [E1 [E0 [EL E01]]].
+    unfold T2t_fr. now rewrite E1, E0, EL, E01.
+  Qed.
 
-  (* same for point *)
-  Theorem point_fixed_total fs T : fs <> [] -> in01 N T = true ->
+  Theorem point_fb_total fs T : fs <> [] -> in01 N T = true ->
     (exists kt, point_fr N true fs T = Ok kt) \/ point_fr N true fs T = Err EZeroDiv.
   Proof.
     intros Hne H01. unfold point_fr.
@@ -107,7 +160,7 @@ Section Gen.
     destruct (point_loop N (x :: r) 0 (zero N) T); [left; eauto|right; reflexivity|].
     rewrite H01. cbn [andb]. left; eexists; reflexivity.
   Qed.
-  Theorem point_fixed_agrees fs T : point_fr N false fs T <> Err ERuntime ->
+  Theorem point_fb_agrees fs T : point_fr N false fs T <> Err ERuntime ->
     point_fr N true fs T = point_fr N false fs T.
   Proof.
     unfold point_fr. destruct (length fs =? 0)%nat; [reflexivity|].
@@ -115,6 +168,84 @@ Section Gen.
     destruct (point_loop N fs 0 (zero N) T); try reflexivity.
     cbn [andb]. congruence.
   Qed.
+
+  (* ---------- the clamp repair (cl = true) ---------- *)
+  (* relation between the two variants: same exception-or-not, same k, t clamped *)
+  Lemma T2t_loop_clamp : forall fs k T0 T,
+    T2t_loop N true fs k T0 T
+    = match T2t_loop N false fs k T0 T with
+      | Found k' t => Found k' (nmin N t (one N))
+      | ZeroDiv => ZeroDiv
+      | Fell => Fell
+      end.
+  Proof.
+    induction fs as [|[ex l] r IH]; intros k T0 T; cbn [T2t_loop]; [reflexivity|].
+    destruct (leb N T (add N T0 l)); [|apply IH].
+    destruct (ex && eqb N l (zero N)); reflexivity.
+  Qed.
+  (* structural: a clamped quotient is never above 1.  Needs only that
+     1 < 1 and 1 < 0 are false in the carrier (closed computations). *)
+  Section ClampLe1.
+    Hypothesis H11 : ltb N (one N) (one N) = false.
+    Hypothesis H10 : ltb N (one N) (zero N) = false.
+    Lemma nmin_not_above_1 q : ltb N (one N) (nmin N q (one N)) = false.
+    Proof. unfold nmin. destruct (ltb N (one N) q) eqn:E; [exact H11|exact E]. Qed.
+    Lemma T2t_loop_clamped_le_1 : forall fs k T0 T k' t,
+      T2t_loop N true fs k T0 T = Found k' t -> ltb N (one N) t = false.
+    Proof.
+      intros fs k T0 T k' t E. rewrite T2t_loop_clamp in E.
+      destruct (T2t_loop N false fs k T0 T); try discriminate.
+      injection E as _ <-. apply nmin_not_above_1.
+    Qed.
+    Theorem T2t_clamped_le_1 fb fs T k t :
+      T2t_fr N true fb fs T = Ok (k, t) -> ltb N (one N) t = false.
+    Proof.
+      unfold T2t_fr. destruct (eqb N T (one N)); [intros E; injection E as _ <-; exact H11|].
+      destruct (eqb N T (zero N)); [intros E; injection E as _ <-; exact H10|].
+      destruct (T2t_loop N true fs 0 (zero N) T) as [k' t'| |] eqn:EL; try discriminate.
+      - intros E; injection E as _ <-. eapply T2t_loop_clamped_le_1; exact EL.
+      - destruct (in01 N T); [|discriminate]. destruct fb; [|discriminate].
+        intros E; injection E as _ <-; exact H11.
+    Qed.
+  End ClampLe1.
+  (* the clamp changes nothing where the unclamped quotient is not above 1 *)
+  Theorem T2t_clamp_agrees fb fs T k t : T2t_fr N false fb fs T = Ok (k, t) ->
+    ltb N (one N) t = false -> T2t_fr N true fb fs T = Ok (k, t).
+  Proof.
+    unfold T2t_fr. destruct (eqb N T (one N)); [auto|]. destruct (eqb N T (zero N)); [auto|].
+    rewrite T2t_loop_clamp. destruct (T2t_loop N false fs 0 (zero N) T); auto.
+    intros E Ht. injection E as <- <-. unfold nmin. now rewrite Ht.
+  Qed.
+
+  (* ---------- no ZeroDivisionError, under two comparison laws ---------- *)
+  Section Laws.
+    (* adding a zero does not change how a sum compares *)
+    Hypothesis LawA : forall T x l, eqb N l (zero N) = true -> leb N T (add N x l) = leb N T x.
+    (* 0 <= T and T != 0 imply not T <= 0 *)
+    Hypothesis LawB : forall T, leb N (zero N) T = true -> eqb N T (zero N) = false ->
+                                leb N T (zero N) = false.
+    Lemma T2t_loop_no_zerodiv_laws : forall cl fs k T0 T, leb N T T0 = false ->
+      T2t_loop N cl fs k T0 T <> ZeroDiv.
+    Proof.
+      intros cl. induction fs as [|[ex l] r IH]; intros k T0 T Hlt; cbn [T2t_loop]; [discriminate|].
+      destruct (leb N T (add N T0 l)) eqn:E.
+      - destruct ex; cbn [andb]; [|discriminate].
+        destruct (eqb N l (zero N)) eqn:El; [|discriminate].
+        rewrite (LawA T T0 l El) in E. congruence.
+      - apply IH. exact E.
+    Qed.
+    Theorem T2t_repaired_total cl fs T : in01 N T = true ->
+      exists kt, T2t_fr N cl true fs T = Ok kt.
+    Proof.
+      intros H01. unfold T2t_fr. destruct (eqb N T (one N)); [eauto|].
+      destruct (eqb N T (zero N)) eqn:E0; [eauto|].
+      assert (Hlt : leb N T (zero N) = false).
+      { apply LawB; [|exact E0]. unfold in01 in H01. now apply andb_true_iff in H01. }
+      pose proof (T2t_loop_no_zerodiv_laws cl fs 0%Z (zero N) T Hlt) as NZ.
+      destruct (T2t_loop N cl fs 0 (zero N) T); [eauto|congruence|].
+      rewrite H01. eauto.
+    Qed.
+  End Laws.
 
   (* with the plain left fold (comp = false) t2T's segment_start is literally the
      loop's accumulator: sum(_lengths[:k+1]) = sum(_lengths[:k]) + _lengths[k] *)
